@@ -7,6 +7,16 @@ ROOT = os.path.dirname(os.path.dirname(os.path.abspath(__file__)))
 
 # id -> (category, technique, level text, level note, design ref)
 CHECKS = {
+    "C12": ("model_checking",
+            "TLA+ state machine of field slots, heap blocks and a ghost array model checked by TLC + TLC-generated behaviours (one per transition, plus seeded simulations) replayed on real fields with full state comparison after every step",
+            "TLC exhausts every history of construct / write / copy and move construction and assignment (incl. self-assignment) / conversion / dump / load / destroy over 2 slots (<= 5 or 6 operations) and 3 slots (<= 5) and checks Refines, NoAlias, NoUseAfterFree, NoDoubleFree, NoLeak; the implementation is bound by replaying one witness behaviour per transition of the abstract state graph and simulated 30-operation histories on real fields, comparing all values, configurations and the number of live storage blocks after every step under ASan/LSan/UBSan.",
+            "Trusted: TLC, g++ 12, ASan/LSan/UBSan, replaced operator new[]/delete[], harness/h_lifecycle.cpp. Moved-from and self-moved fields are unspecified (only destroyed or assigned to). Field types: four layouts x N in 1..4 over array<float1>.",
+            "DESIGN.md section 4, C12"),
+    "C05": ("model_checking",
+            "TLA+ Convert action (re-layout copy in nd_map order) checked by TLC + generated conversion behaviours replayed on real fields + all ordered layout pairs and whole stacks on TLC-enumerated extents + trace validation of random extents",
+            "TLC checks, for every conversion chain over the four layouts and every extent vector of the configuration (N in 1..4), that a conversion is a stuttering step on the array model (Refines), keeps the configuration, sizes the storage as the constructor computes it, leaves the source untouched and that fields with equal models agree whatever their layouts (RoundTrip); the implementation is bound by replaying one behaviour per transition and by converting every ordered layout pair there and back and whole affine<I<L<array>>> stacks on every TLC-enumerated extent vector.",
+            "Trusted: TLC, g++ 12, ASan/UBSan. The CUDA device array conversion is not exercised (no CUDA runtime in the sandbox; the planned host shim was not built in this round).",
+            "DESIGN.md section 4, C05 and section 6"),
     "C03": ("model_checking",
             "TLA+ definition of the interpolator as coded vs the tensor-product interpolant checked by TLC + emitted fields/queries replayed exactly + trace validation of random dyadic queries",
             "TLC proves on the exact (dyadic/integer) domain that the interpolator as coded (per-branch corner convention and weights) equals the textbook N-linear interpolant, is exact at lattice points, stays within the surrounding values and reads exactly the 2^N cell vertices; every enumerated field and query is replayed with exact equality for coordinate and storage precisions float/double, M in 1..4, strided and Morton storage, a clamp beneath, an N-d probe for the cells read, and precision probes at 2^-20/2^-30; random grids are validated by Trace_Interp.",
